@@ -60,6 +60,7 @@ let dispatch (comp : string) (items : M.item list) : verdict =
   | "EX" -> VB (M.ex_check_items items)
   | "EXD" -> VN (M.ex_diag_items items)
   | "MC" -> VB (M.mc_check_items items)
+  | "TR" -> VB (M.tr_check_items items)
   | _ -> failwith ("unknown component " ^ comp)
 
 let rec int_of_pos (p : M.positive) : int =
